@@ -592,7 +592,10 @@ class Vector():
 		"""
 
 		_alias = _ALIAS_TRACKER
-		_alias.check_writable(self, id(self._underlying))
+		if self._underlying:
+			# All empty vectors share the interpreter's single empty tuple; that is
+			# not aliasing (there is nothing to write through), so it is not refused
+			_alias.check_writable(self, id(self._underlying))
 
 		# === Fast precomputed checks ===
 		key = self._check_duplicate(key)
